@@ -196,7 +196,7 @@ fn render_block_value(n: &Node, ind: usize, out: &mut String) {
                 if p.is_empty() { out.push('\n') } else { out.push_str(&format!(" {}\n", p.trim_end())) }
                 for (k, v) in entries {
                     let ks = render_flow(k);
-                    let sep = if matches!(k, Node::Alias(_)) || ks.is_empty() { " :" } else { ":" };
+                    let sep = if matches!(k, Node::Alias(_)) || ks.is_empty() || matches!(k, Node::Scalar { text, .. } if text.is_empty()) { " :" } else { ":" };
                     out.push_str(&format!("{}{ks}{sep}", pad(ind + 2)));
                     render_block_value(v, ind + 2, out);
                 }
@@ -220,7 +220,7 @@ pub fn render_doc(n: &Node) -> String {
             let mut out = String::new();
             for (k, v) in entries {
                 let ks = render_flow(k);
-                let sep = if matches!(k, Node::Alias(_)) || ks.is_empty() { " :" } else { ":" };
+                let sep = if matches!(k, Node::Alias(_)) || ks.is_empty() || matches!(k, Node::Scalar { text, .. } if text.is_empty()) { " :" } else { ":" };
                 out.push_str(&format!("{ks}{sep}"));
                 render_block_value(v, 0, &mut out);
             }
@@ -435,6 +435,17 @@ impl<'a> Gen<'a> {
             4 | 5 | 6 => self.alias().unwrap_or_else(|| Node::plain("~")),
             _ => self.map(depth, false),
         }
+    }
+}
+
+/// true if some mapping of the tree has a plain untagged `<<` key (i.e. a merge key)
+pub fn has_merge_key(n: &Node) -> bool {
+    match n {
+        Node::Map { entries, .. } => entries.iter().any(|(k, v)| {
+            matches!(k, Node::Scalar { text, sty: Sty::Plain, tag: None, .. } if text == "<<") || has_merge_key(k) || has_merge_key(v)
+        }),
+        Node::Seq { items, .. } => items.iter().any(has_merge_key),
+        _ => false,
     }
 }
 
